@@ -379,6 +379,8 @@ def gen_item(rng, tier, ver="3.7"):
                            "co_freevars": rng.randint(0, 5) if rng.chance(0.4) else None, "co_cellvars": rng.randint(0, 5) if rng.chance(0.4) else None}
         if rng.chance(0.3):
             g["line_tail"] = rng.choice(["noline", "noline", 3, 100])
+        if rng.chance(0.2):
+            g["firstlineno"] = rng.choice([0, 0, 1, 2 ** 31 - 2000])  # absolute line numbers 0, or near the C int limit
         item["graft"] = g
     return item
 
@@ -660,9 +662,9 @@ def gen_cli_plan(seed, tier):
         if "\r" in src or "\x00" in src:
             src = "def f(a, *b):\n    'doc'\n    return a in {1, None}\n"
     plan = {"kind": "cli", "ver": ver, "hashseed": hs, "oracle_hashseed": hs if same_seed else rng.randint(0, 2 ** 32 - 1), "flags": flags,
-            "source_kind": kind, "src": src, "module": (rng.choice(CLI_MODULES) if rng.chance(0.5) else rng.choice(["custom:cookie", "custom:pyc", "custom:zip"])) if kind == "m" else None,
+            "source_kind": kind, "src": src, "module": (rng.choice(CLI_MODULES) if rng.chance(0.5) else rng.choice(["custom:cookie", "custom:pyc", "custom:zip", "custom:pkgpath"])) if kind == "m" else None,
             "warm": rng.chance(0.3), "warm_n": rng.randint(2, 3), "warm_other": {k: rng.chance(0.5) for k in OUT_FLAGS},
-            "e_bytes": kind == "e" and rng.chance(0.25)}
+            "e_bytes": kind == "e" and rng.chance(0.25), "attached": rng.chance(0.2)}
     if kind == "file" and not invalid and rng.chance(0.35):
         # durable state between invocations: the SAME path is rewritten with another program of the same
         # size and (simulated clock) the same modification time, then inspected again
@@ -713,6 +715,8 @@ def cli_argv(plan, workdir):
     if kind == "c":
         # the CLI turns the two characters backslash-n of a -c argument into a newline -- and nothing else
         arg = src.replace("\n", "\\n")
+        if plan.get("attached") and arg and not arg.startswith("-"):
+            return out + ["-c" + arg], {"source_kind": "c", "source": arg.replace("\\n", "\n"), "filename": "<string>", "flags": flags}
         return out + ["-c", arg], {"source_kind": "c", "source": arg.replace("\\n", "\n"), "filename": "<string>", "flags": flags}
     if kind == "e" and plan.get("e_bytes"):
         # the expression evaluates to BYTES carrying a PEP 263 coding cookie (compile() honours it)
@@ -724,6 +728,8 @@ def cli_argv(plan, workdir):
     if kind == "e":
         expr = " + linesep + ".join(repr(line) for line in src.split("\n"))
         expected_src = os.linesep.join(src.split("\n"))
+        if plan.get("attached"):
+            return out + ["-e" + expr], {"source_kind": "e", "source": expected_src, "filename": "<string>", "flags": flags}
         return out + ["-e", expr], {"source_kind": "e", "source": expected_src, "filename": "<string>", "flags": flags}
     mod = plan["module"]
     if mod.startswith("custom:"):
@@ -736,6 +742,15 @@ def cli_argv(plan, workdir):
             name = "zz_cookie_mod"
             with open(os.path.join(mdir, name + ".py"), "wb") as f:
                 f.write(("# -*- coding: latin-1 -*-\n" + body % "caf\xe9 \xfc").encode("latin-1"))
+        elif mod == "custom:pkgpath":
+            # a sub-module only reachable because of what the parent package does when it is imported
+            name = "zz_pkg.zz_sub"
+            os.makedirs(os.path.join(mdir, "zz_pkg"), exist_ok=True)
+            os.makedirs(os.path.join(mdir, "zz_elsewhere"), exist_ok=True)
+            with open(os.path.join(mdir, "zz_pkg", "__init__.py"), "w", encoding="utf-8") as f:
+                f.write("import os\n__path__.append(os.path.join(os.path.dirname(os.path.dirname(__file__)), 'zz_elsewhere'))\n")
+            with open(os.path.join(mdir, "zz_elsewhere", "zz_sub.py"), "w", encoding="utf-8") as f:
+                f.write(body % "found through the parent's __path__")
         elif mod == "custom:pyc":
             name = "zz_pyc_only_mod"
             srcp = os.path.join(mdir, name + ".py")
@@ -753,7 +768,7 @@ def cli_argv(plan, workdir):
                 z.writestr(name + ".py", body % "zipped")
             extra = [zp]
         return out + ["-m", name], {"source_kind": "m", "module": name, "flags": flags, "extra_path": extra}
-    return out + ["-m", mod], {"source_kind": "m", "module": mod, "flags": flags}
+    return out + (["-m" + mod] if plan.get("attached") else ["-m", mod]), {"source_kind": "m", "module": mod, "flags": flags}
 
 
 def run_cli_process(ver, hashseed, argv, tree, cwd, extra_path=()):
@@ -890,6 +905,8 @@ def exec_cli(plan, tree, log=None):
                 log.violate("C16", "L1-usage-error-expected", "+".join(sorted(x[0] for x in plan["sources"])) or "none",
                             {"status": status, "stdout": stdout[:200], "argv": [a.replace(workdir, "<wd>") for a in argv], "sources_in_order": plan["sources"]})
             return log
+        if plan.get("attached") and plan["source_kind"] in ("c", "e", "m") and "sources" not in plan:
+            log.count("fault_value_attached_to_short_option")
         if plan.get("e_bytes") and plan["source_kind"] == "e" and "sources" not in plan:
             log.count("fault_e_expression_evaluates_to_bytes_with_coding_cookie")
         if inv:
